@@ -36,7 +36,7 @@ pub mod ixr;
 pub mod time;
 use rustic_core::repofile::{BlobType, Chunker, ConfigFile, MasterKey, Metadata, Node, NodeType, SnapshotFile};
 use rustic_core::{
-    BackupOptions, BlobId, Credentials, Excludes, IndexedFull, KeyOptions, LocalDestination, LsOptions, PathList, Repository, RestoreOptions,
+    ReadSource, ReadSourceEntry, RusticResult, BackupOptions, BlobId, Credentials, Excludes, IndexedFull, KeyOptions, LocalDestination, LsOptions, PathList, Repository, RestoreOptions,
 };
 
 const DEFAULT_POLY: u64 = 0x003D_A335_8B4D_C173;
@@ -874,9 +874,9 @@ fn mem_entry(pe: &PEnt) -> SrcEntry {
 }
 
 /// plaintext of the tree blob of directory `dir` when `entries` are backed up with `cfg`
-fn tree_bytes_of(cfg: &Cfg, opts: &Opts, entries: Vec<SrcEntry>, dir: &[Vec<u8>]) -> Result<Vec<u8>, String> {
+fn tree_bytes_of(cfg: &Cfg, opts: &Opts, entries: Vec<SrcEntry>, ns: BTreeMap<Vec<Vec<u8>>, u32>, dir: &[Vec<u8>]) -> Result<Vec<u8>, String> {
     let h = init_with(cfg, opts.gf)?;
-    let src = MemSource::new(entries);
+    let src = NsSource { inner: MemSource::new(entries), ns };
     let repo = open_nc(&h).and_then(Repository::to_indexed_ids).map_err(|e| errkind(&e))?;
     let snap = repo.archive(&BackupOptions::default(), &src, SnapshotFile::default(), &[PathBuf::from(SRC_ROOT)]).map_err(|e| format!("backup-{}", errkind(&e)))?;
     drop(repo);
@@ -893,17 +893,40 @@ fn tree_bytes_of(cfg: &Cfg, opts: &Opts, entries: Vec<SrcEntry>, dir: &[Vec<u8>]
 
 const ROOT_MTIME: i64 = 1_600_000_000;
 
-fn e2e(cfg: &Cfg, opts: &Opts, mut ents: Vec<PEnt>, seed: u64) -> String {
-    if ents.iter().any(|x| x.ns != 0) {
-        return "bad-op".into(); // the in-memory source carries whole seconds
+/// `MemSource` with nanosecond parts of the mtimes (`SrcEntry` carries whole seconds): token time = floor seconds + nanoseconds
+struct NsSource {
+    inner: MemSource,
+    ns: BTreeMap<Vec<Vec<u8>>, u32>,
+}
+
+impl ReadSource for NsSource {
+    type Open = std::io::Cursor<Vec<u8>>;
+    type Iter = std::vec::IntoIter<RusticResult<ReadSourceEntry<Self::Open>>>;
+    fn size(&self) -> RusticResult<Option<u64>> {
+        Ok(None)
     }
+    fn entries(&self) -> Self::Iter {
+        // the root first, then `inner.entries` in their order
+        let mut v: Vec<_> = self.inner.entries().collect();
+        for (item, e) in v.iter_mut().skip(1).zip(&self.inner.entries) {
+            if let (Ok(item), Some(ns)) = (item, self.ns.get(&e.path)) {
+                let t = rustic_core::jiff::Timestamp::from_nanosecond(i128::from(e.mtime_s) * 1_000_000_000 + i128::from(*ns)).ok();
+                item.node.meta.mtime = t;
+                item.node.meta.atime = t;
+            }
+        }
+        v.into_iter()
+    }
+}
+
+fn e2e(cfg: &Cfg, opts: &Opts, mut ents: Vec<PEnt>, seed: u64) -> String {
     assign_inodes(&mut ents);
     // tree-content files: the tree blobs come from a backup of the other entries with the same configuration
     if ents.iter().any(|x| matches!(x.tag, Tag::TreeOf(_))) {
         let others: Vec<SrcEntry> = ents.iter().filter(|x| !matches!(x.tag, Tag::TreeOf(_))).map(mem_entry).collect();
         for i in 0..ents.len() {
             if let Tag::TreeOf(d) = ents[i].tag.clone() {
-                match tree_bytes_of(cfg, opts, others.clone(), &d) {
+                match tree_bytes_of(cfg, opts, others.clone(), ents.iter().filter(|x| x.ns != 0).map(|x| (x.e.path.clone(), x.ns)).collect(), &d) {
                     Ok(b) => ents[i].e.kind = SrcKind::File(b),
                     Err(e) => return format!("err:tree-of:{e}"),
                 }
@@ -914,7 +937,7 @@ fn e2e(cfg: &Cfg, opts: &Opts, mut ents: Vec<PEnt>, seed: u64) -> String {
         Ok(h) => h,
         Err(e) => return format!("init-{e}"),
     };
-    let src = MemSource::new(ents.iter().map(mem_entry).collect());
+    let src = NsSource { inner: MemSource::new(ents.iter().map(mem_entry).collect()), ns: ents.iter().filter(|x| x.ns != 0).map(|x| (x.e.path.clone(), x.ns)).collect() };
     let repo = match open_nc(&h).and_then(Repository::to_indexed_ids) {
         Ok(r) => r,
         Err(e) => return errkind(&e),
@@ -939,9 +962,9 @@ fn e2e(cfg: &Cfg, opts: &Opts, mut ents: Vec<PEnt>, seed: u64) -> String {
     };
     let mut exps = vec![Exp { rel: b"src".to_vec(), hexp: String::new(), kind: SrcKind::Dir, mode: 0o755, mtime_s: ROOT_MTIME, ns: 0, tag: '-', hl: false }];
     for pe in &ents {
-        exps.push(Exp { rel: join_rel(b"src", &pe.e.path), hexp: hexpath(&pe.e.path), kind: pe.e.kind.clone(), mode: pe.e.mode, mtime_s: pe.e.mtime_s, ns: 0, tag: tagc(pe), hl: is_hl(&ents, pe) });
+        exps.push(Exp { rel: join_rel(b"src", &pe.e.path), hexp: hexpath(&pe.e.path), kind: pe.e.kind.clone(), mode: pe.e.mode, mtime_s: pe.e.mtime_s, ns: pe.ns, tag: tagc(pe), hl: is_hl(&ents, pe) });
     }
-    for e in &src.entries {
+    for e in &src.inner.entries {
         if !ents.iter().any(|pe| pe.e.path == e.path) {
             exps.push(Exp { rel: join_rel(b"src", &e.path), hexp: String::new(), kind: SrcKind::Dir, mode: go_perm(e.mode), mtime_s: e.mtime_s, ns: 0, tag: '-', hl: false });
         }
@@ -1485,7 +1508,7 @@ fn rand_mtime(rng: &mut Rng, stats: &mut Stats, ns: bool) -> (i64, u32) {
         0
     };
     if n != 0 {
-        stats.hit("mtime.nanoseconds");
+        stats.hit(if s < 0 { "mtime.before-1970-with-nanoseconds" } else { "mtime.nanoseconds" });
     }
     (s, n)
 }
@@ -1534,7 +1557,7 @@ impl Build {
         }
         let seed = rng.below(1 << 40);
         let mode = self.file_mode(rng, stats);
-        let mt = rand_mtime(rng, stats, self.local);
+        let mt = rand_mtime(rng, stats, true);
         stats.hit(format!("file.{kind}.{}", Stats::bucket(len)));
         _ = self.spec.insert(path.clone(), (kind.to_string(), len, seed));
         // the bytes are regenerated from the token
@@ -1546,7 +1569,7 @@ impl Build {
             return false;
         }
         let mode = self.dir_mode(rng, stats);
-        let mt = rand_mtime(rng, stats, self.local);
+        let mt = rand_mtime(rng, stats, true);
         self.push(path, SrcKind::Dir, mode, mt, Tag::Plain, 0);
         true
     }
@@ -1556,7 +1579,7 @@ impl Build {
         }
         let t = rand_target(rng, stats);
         // the mtime of a real symlink cannot be chosen (it is read from the disk instead)
-        let mt = if self.local { (0, 0) } else { rand_mtime(rng, stats, false) };
+        let mt = if self.local { (0, 0) } else { rand_mtime(rng, stats, true) };
         stats.hit("symlink");
         self.push(path, SrcKind::Symlink(t), 0o777, mt, Tag::Plain, 0);
         true
@@ -1573,7 +1596,7 @@ impl Build {
             return false;
         }
         let mode = self.file_mode(rng, stats);
-        let mt = rand_mtime(rng, stats, false);
+        let mt = rand_mtime(rng, stats, true);
         self.push(path, SrcKind::File(vec![]), mode, mt, Tag::TreeOf(dir), 0);
         true
     }
@@ -1585,7 +1608,7 @@ impl Build {
             for k in 1..p.len() {
                 if have.insert(p[..k].to_vec()) {
                     let mode = self.dir_mode(rng, stats);
-                    let mt = rand_mtime(rng, stats, self.local);
+                    let mt = rand_mtime(rng, stats, true);
                     self.push(p[..k].to_vec(), SrcKind::Dir, mode, mt, Tag::Plain, 0);
                 }
             }
